@@ -5,6 +5,8 @@ from rulelib import *
 from rulelib import _rv_operands
 from facts import op_int, op_local, op_place
 
+THOROUGH_CFGS = ('min_none', 'min_rten', 'min_onnx')   # reduced-feature builds of the rten crate (thorough tier)
+
 EXPLANATION = (
     "Decides the wiring clauses of C10, not the soundness of each inference function: (table) for every impl of Operator the "
     "inference object returned by as_infer_shapes is resolved (Some(self) -> the rten_shape_inference type its InferShapes impl "
